@@ -1,6 +1,8 @@
 import Lean.Data.Json
 import PfdlModel.Api
 import PfdlModel.Check
+import PfdlModel.ExprParse
+import PfdlModel.Denter
 /-! Line protocol driver: one JSON case per input line, one JSON result per output line. -/
 open Lean Pfdl
 
@@ -331,6 +333,53 @@ def runCheck (j : Json) : Except String Json := do
   | some errs => pure (Json.mkObj [("raised", .bool false),
       ("errors", Json.arr (errs.map (fun e => Json.arr #[.str e.kind, Json.num (JsonNumber.fromNat e.line)])).toArray)])
 
+/-! text family: expression evaluation / expression parser / layout -/
+
+partial def exprJson : Expr → Json
+  | .lit v => valJson v
+  | .path p => Json.arr (p.map Json.str).toArray
+  | .not e => Json.mkObj [("unOp", .str "!"), ("value", exprJson e)]
+  | .paren e => Json.mkObj [("left", .str "("), ("binOp", exprJson e), ("right", .str ")")]
+  | .bin o l r => Json.mkObj [("binOp", .str o), ("left", exprJson l), ("right", exprJson r)]
+  | .none => .null
+
+def tokOf (j : Json) : Except String ExprParse.Tok :=
+  match j with
+  | .str "(" => pure .lpar
+  | .str ")" => pure .rpar
+  | .str "!" => pure .bang
+  | .obj _ =>
+    match fieldOpt j "op" with
+    | some o => do pure (.op (← getStr o))
+    | none => do pure (.atom (← exprOf (← field j "atom")))
+  | _ => jerr "token"
+
+def runExpr (j : Json) : Except String Json := do
+  let mut fields : List (String × Json) := []
+  match fieldOpt j "tree" with
+  | some t =>
+    let e ← exprOf t
+    let vals ← getArr (← field j "vals")
+    let mut ds : Array Json := #[]
+    for v in vals do
+      let w ← valOf v
+      let (r, _) := e.exec (fun _ => some w) 0
+      ds := ds.push (match r with | some x => .bool x.truthy | none => .null)
+    fields := ("decisions", Json.arr ds) :: fields
+  | none => pure ()
+  match fieldOpt j "tokens" with
+  | some ts =>
+    let toks ← (← getArr ts).toList.mapM tokOf
+    fields := ("parsed", match ExprParse.parse toks with | some e => exprJson e | none => .str "no-parse") :: fields
+  | none => pure ()
+  pure (Json.mkObj fields)
+
+def runDenter (j : Json) : Except String Json := do
+  let text ← getStr (← field j "text")
+  match Denter.pattern text with
+  | some p => pure (Json.mkObj [("pattern", .str p)])
+  | none => pure (Json.mkObj [("pattern", .null)])
+
 def handle (line : String) : String :=
   match Json.parse line with
   | .error e => (Json.mkObj [("error", .str s!"parse: {e}")]).compress
@@ -339,6 +388,8 @@ def handle (line : String) : String :=
     let r := match k with
       | "sched" => runSched j
       | "check" => runCheck j
+      | "expr" => runExpr j
+      | "denter" => runDenter j
       | _ => .error s!"unknown request kind {k}"
     match r with
     | .ok out => out.compress
